@@ -268,6 +268,17 @@ def gen_cases(tier, rnd):
             sc["allow_redundant_or"] = False
             runs.append((ts, sc, "shacl"))
         cases.append({"runs": runs, "meta": {"i": i, "stream": stream}})
+    # documents that cross the serialiser's 5000-line buffer (once; thorough: twice): the text returned as a string
+    # must still declare every prefix and define every referenced shape (what is flushed must not be lost)
+    for nclasses in ([900] if tier != "thorough" else [900, 1800]):
+        e = "http://ex.org/"
+        big = []
+        for k in range(nclasses):
+            node = ("I", e + "n%d" % k)
+            big.append((node, pipe.RDF_TYPE, ("I", e + "K%d" % k)))
+            big.append((node, e + "p", ("L", "v", pipe.XSD + "string")))
+            big.append((node, e + "q", ("I", e + "n%d" % ((k + 1) % nclasses))))
+        cases.append({"runs": [(big, pipe.base_cfg())], "meta": {"i": -1, "stream": "beyond-the-line-buffer"}})
     # serialiser level: synthetic shape lists (faults, detect_minimal_iri) against Model.ShaclDoc.shacl_graph_gen
     grid = shacldoc.grid_specs(random.Random(rnd.getrandbits(48)), 4000 if tier == "thorough" else 400)
     for k, spec in enumerate(grid):
